@@ -54,7 +54,10 @@ def main():
                     Fc = F.copy()
                     with contextlib.redirect_stdout(io.StringIO()):
                         import comp_crowd
-                        r = np.array(metrics.get_crowding_function(comp_crowd.label_object(job["label"])).do(Fc, n_remove=job["n_remove"]), dtype=float)
+                        op_ = metrics.get_crowding_function(comp_crowd.label_object(job["label"]))
+                        if job.get("reuse") and hasattr(op_, "do"):
+                            op_.do(comp_crowd.warm_front(job["label"], F.shape[1]), n_remove=0)
+                        r = np.array(op_.do(Fc, n_remove=job["n_remove"]), dtype=float)
                     same = bool(np.array_equal(Fc.view(np.uint64), F.view(np.uint64)))
                     res = ("ok", r, same)
                 elif kind == "trace":
